@@ -222,7 +222,7 @@ func runChild(jobFile string, startDecl, startRun int) (lines []string, killed s
 }
 
 func runC10(cfg lib.Cfg) error {
-	per := 1
+	per := 2
 	if cfg.Thorough() {
 		per = 3
 	}
@@ -473,6 +473,9 @@ func runC10(cfg lib.Cfg) error {
 	if err := sharedDecoderCases(out, r.Fork()); err != nil {
 		return err
 	}
+	if err := insertStream(out, r.Fork(), cfg.Thorough()); err != nil {
+		return err
+	}
 	// thorough: extra declarations, evaluated by the extracted model only
 	for done := 0; done < nExtra; {
 		plans = nil
@@ -529,6 +532,13 @@ func replayC10(cfg lib.Cfg, out *lib.Out) error {
 			return err
 		}
 		out.Notes["replay"] = cfg.Replay
+		return out.Flush()
+	}
+	if ds.Op == "insert" {
+		ok, msg := replayInsert(ds.JSON, abi.UnHex(ds.Input))
+		fmt.Println("replay:", msg)
+		out.Notes["replay"] = cfg.Replay
+		out.Add(lib.Case{Coq: "CMal (mkevent [] []) [] []", Desc: ds, Kind: "replay", OracleOK: ok, OracleMsg: "replayed input still fails: " + msg})
 		return out.Flush()
 	}
 	job := []jobDecl{{JSON: ds.JSON, Base: abi.UnHex(ds.Input), Muts: []abi.Mut{{Kind: "id"}}}}
